@@ -16,6 +16,9 @@ FULL STATEMENT (properties.jsonl): for every well-typed program and input, every
   inside the guard of C01 ("MAP is never applied to an *empty* collection with a type-changing body").
   Outside the guard pytezos really leaves a value of the wrong type (recorded open finding:
   `map_empty_type_counterexample`), so the unguarded statement is false of the code.
+* `type_soundness` adds the progress half (C01's `progress`): a well-typed program on well-typed values is never
+  stuck; `welltyped_run_preserves_types` is `run_preserves_types` with well-typedness as the hypothesis (no "the
+  reference run is not stuck").
 * `map_keeps_key_type` is the sentence "instructions that transform collections keep their key and element
   types" for MAP over a map with an arbitrary (composite) key type. -/
 namespace C02
@@ -41,18 +44,49 @@ every program, environment, fuel bound and well-typed input, if the run is insid
 exactly the statically assigned types — every slot, deep. -/
 theorem run_preserves_types (env : Env) (fuel : Nat) (i : Instr) (st st' : List Val) (ts : List Ty) (tr : TRes)
     (hst : StackTy st ts) (hty : typeInstr false i ts = some tr)
-    (hg : Spec.eval true env fuel i st ≠ .err) (hrun : Impl.run env fuel i st = .ok st') :
+    (hs : Spec.eval true env fuel i st ≠ .stuck) (hg : Spec.eval true env fuel i st ≠ .offguard) (hrun : Impl.run env fuel i st = .ok st') :
     ∃ ts', tr = .ok ts' ∧ StackTy st' ts' ∧ st'.map typeOf = ts' := by
-  rw [C01.run_eq_reference env fuel i st hg] at hrun
+  rw [C01.run_eq_reference env fuel i st hs hg] at hrun
   obtain ⟨ts', h1, h2⟩ := preservation env fuel i st st' ts tr hst hty hrun
+  exact ⟨ts', h1, h2, h2.map_typeOf⟩
+
+/-- **type soundness of the reference semantics** = progress + preservation: a well-typed program (typing rules,
+well-formed set / map literals) on a stack of well-typed values (`StackTy`, strictly sorted sets / maps) never gets
+stuck, and a stack it returns consists of well-typed values of exactly the statically assigned types. -/
+theorem type_soundness (env : Env) (fuel : Nat) (i : Instr) (st : List Val) (ts : List Ty) (tr : TRes)
+    (hst : StackTy st ts) (hgood : ∀ v ∈ st, litOk v = true) (hlit : literalsOk i = true)
+    (hty : typeInstr false i ts = some tr) :
+    Spec.eval false env fuel i st ≠ .stuck ∧
+    ∀ st', Spec.eval false env fuel i st = .ok st' →
+      ∃ ts', tr = .ok ts' ∧ StackTy st' ts' ∧ ∀ v ∈ st', litOk v = true := by
+  obtain ⟨hw, hm⟩ := stackTy_iff.mp hst
+  subst hm
+  have hwf : ∀ v ∈ st, WellFormed v := fun v hv => ⟨hw v hv, hgood v hv⟩
+  refine ⟨C01.progress env fuel i st tr hty hwf hlit, fun st' hev => ?_⟩
+  obtain ⟨ts', h1, h2⟩ := preservation env fuel i st st' _ tr hst hty hev
+  exact ⟨ts', h1, h2, fun v hv => (Interp.wellFormed_preserved env fuel i st st' tr hty hwf hlit hev v hv).2⟩
+
+/-- **the pytezos machine, well-typed programs**: `run_preserves_types` with well-typedness in place of "the reference
+run is not stuck" — the typing rules accept the program, the literals are well-formed, the input values are well-typed;
+inside C01's guard every final slot of the machine has exactly the statically assigned type. -/
+theorem welltyped_run_preserves_types (env : Env) (fuel : Nat) (i : Instr) (st st' : List Val) (ts : List Ty) (tr : TRes)
+    (hst : StackTy st ts) (hgood : ∀ v ∈ st, litOk v = true) (hlit : literalsOk i = true)
+    (hty : typeInstr false i ts = some tr)
+    (hg : Spec.eval true env fuel i st ≠ .offguard) (hrun : Impl.run env fuel i st = .ok st') :
+    ∃ ts', tr = .ok ts' ∧ StackTy st' ts' ∧ st'.map typeOf = ts' := by
+  obtain ⟨hw, hm⟩ := stackTy_iff.mp hst
+  subst hm
+  have hwf : ∀ v ∈ st, WellFormed v := fun v hv => ⟨hw v hv, hgood v hv⟩
+  rw [C01.welltyped_run_eq_reference env fuel i st tr hty hwf hlit hg] at hrun
+  obtain ⟨ts', h1, h2⟩ := preservation env fuel i st st' _ tr hst hty hrun
   exact ⟨ts', h1, h2, h2.map_typeOf⟩
 
 /-- a program typed as always failing (FAILWITH in tail position) never returns a stack -/
 theorem failing_type_never_returns (env : Env) (fuel : Nat) (i : Instr) (st st' : List Val) (ts : List Ty)
     (hst : StackTy st ts) (hty : typeInstr false i ts = some .failed)
-    (hg : Spec.eval true env fuel i st ≠ .err) : Impl.run env fuel i st ≠ .ok st' := by
+    (hs : Spec.eval true env fuel i st ≠ .stuck) (hg : Spec.eval true env fuel i st ≠ .offguard) : Impl.run env fuel i st ≠ .ok st' := by
   intro hrun
-  obtain ⟨ts', h1, _⟩ := run_preserves_types env fuel i st st' ts _ hst hty hg hrun
+  obtain ⟨ts', h1, _⟩ := run_preserves_types env fuel i st st' ts _ hst hty hs hg hrun
   cases h1
 
 /-- the storage of a contract run: the final stack of a well-typed contract body is one
@@ -60,9 +94,9 @@ theorem failing_type_never_returns (env : Env) (fuel : Nat) (i : Instr) (st st' 
 of the declared types -/
 theorem storage_has_declared_type (env : Env) (fuel : Nat) (i : Instr) (st : List Val) (ts : List Ty) (r : Val) (a b : Ty)
     (hst : StackTy st ts) (hty : typeInstr false i ts = some (.ok [.pair a b]))
-    (hg : Spec.eval true env fuel i st ≠ .err) (hrun : Impl.run env fuel i st = .ok [r]) :
+    (hs : Spec.eval true env fuel i st ≠ .stuck) (hg : Spec.eval true env fuel i st ≠ .offguard) (hrun : Impl.run env fuel i st = .ok [r]) :
     ∃ x y, r = .pair x y ∧ HasTy x a ∧ HasTy y b ∧ typeOf y = b := by
-  obtain ⟨ts', h1, h2, _⟩ := run_preserves_types env fuel i st [r] ts _ hst hty hg hrun
+  obtain ⟨ts', h1, h2, _⟩ := run_preserves_types env fuel i st [r] ts _ hst hty hs hg hrun
   cases h1
   cases h2 with
   | cons hv _ =>
@@ -75,12 +109,13 @@ theorem map_keeps_key_type (env : Env) (fuel : Nat) (body : Instr) (m : Val) (st
     (k v v' : Ty) (ts : List Ty)
     (hst : StackTy (m :: st) (.map k v :: ts))
     (hbody : typeInstr false body (.pair k v :: ts) = some (.ok (v' :: ts)))
-    (hg : Spec.eval true env fuel (.MAP body) (m :: st) ≠ .err)
+    (hs : Spec.eval true env fuel (.MAP body) (m :: st) ≠ .stuck)
+    (hg : Spec.eval true env fuel (.MAP body) (m :: st) ≠ .offguard)
     (hrun : Impl.run env fuel (.MAP body) (m :: st) = .ok st') :
     ∃ r rest, st' = r :: rest ∧ typeOf r = .map k v' ∧ HasTy r (.map k v') ∧ StackTy rest ts := by
   have hty : typeInstr false (.MAP body) (.map k v :: ts) = some (.ok (.map k v' :: ts)) := by
     simp [typeInstr, hbody]
-  obtain ⟨ts', h1, h2, _⟩ := run_preserves_types env fuel (.MAP body) (m :: st) st' _ _ hst hty hg hrun
+  obtain ⟨ts', h1, h2, _⟩ := run_preserves_types env fuel (.MAP body) (m :: st) st' _ _ hst hty hs hg hrun
   cases h1
   cases h2 with
   | cons hv hrest => exact ⟨_, _, rfl, hv.typeOf_eq, hv, hrest⟩
@@ -136,5 +171,10 @@ example : StackTy [C01.mapAB, C01.set13] [.map .string .nat, .set .int] :=
 example : typeInstr false (.seq [.SHA512, .SHA3, .CAST .bytes, .TOTAL_VOTING_POWER, .MIN_BLOCK_TIME, .RENAME]) [.bytes]
     = some (.ok [.nat, .nat, .bytes]) := by rfl
 example : typeInstr false (.CAST .int) [.nat] = none := by rfl
+
+-- non-vacuity of `type_soundness` / `welltyped_run_preserves_types`: the hypotheses hold for MAP { CDR } over the map above
+example : ∀ v ∈ [mPair], litOk v = true := by simp [mPair, litOk, litOks, simpleComparable]
+example : literalsOk (.MAP .CDR) = true := by rfl
+example : typeInstr false (.MAP .CDR) [.map (.pair .int .int) .int] = some (.ok [.map (.pair .int .int) .int]) := by rfl
 
 end C02
